@@ -34,10 +34,12 @@ type CPExpect struct {
 	MaxRam  int // highest RAM address named as an immediate
 	RomSize int // `romsize:` given by the user
 	RamSize int // `ramsize:` given by the user
+	RamData int // number of RAM data words (0 = none)
+	SOs     int // shared objects attached to the processor
 }
 
 func unknownCP() CPExpect {
-	return CPExpect{MaxReg: -1, MaxIn: -1, MaxOut: -1, Instr: -1, Data: -1, MaxJump: -1, MaxRam: -1, RomSize: -1, RamSize: -1}
+	return CPExpect{MaxReg: -1, MaxIn: -1, MaxOut: -1, Instr: -1, Data: -1, MaxJump: -1, MaxRam: -1, RomSize: -1, RamSize: -1, SOs: -1}
 }
 
 // Expect is what the source says about the whole machine (zero / -1 / nil = unknown).
@@ -48,9 +50,10 @@ type Expect struct {
 	Inputs  int        // external inputs (-1 unknown)
 	Outputs int        // external outputs (-1 unknown)
 	Bonds   int        // connected links (-1 unknown)
+	Shared  int        // shared objects of the machine (-1 unknown)
 }
 
-func unknownExpect() Expect { return Expect{Procs: -1, Inputs: -1, Outputs: -1, Bonds: -1} }
+func unknownExpect() Expect { return Expect{Procs: -1, Inputs: -1, Outputs: -1, Bonds: -1, Shared: -1} }
 
 var (
 	reReg = regexp.MustCompile(`^r([0-9]+)$`)
@@ -413,7 +416,13 @@ func wf(bm *bondmachine.Bondmachine, ex Expect) *pbt.Failure {
 	if len(bm.Shared_links) != len(bm.Processors) {
 		return pbt.Failf("wf:bonds", "%d shared-object lists for %d processors", len(bm.Shared_links), len(bm.Processors))
 	}
+	if ex.Shared >= 0 && len(bm.Shared_objects) != ex.Shared {
+		return pbt.Failf("wf:bonds", "%d shared objects, the source defines %d", len(bm.Shared_objects), ex.Shared)
+	}
 	for p, l := range bm.Shared_links {
+		if p < len(ex.CPs) && ex.CPs[p].SOs >= 0 && len(l) != ex.CPs[p].SOs {
+			return pbt.Failf("wf:bonds", "processor %d is attached to %d shared objects, the source attaches %d", p, len(l), ex.CPs[p].SOs)
+		}
 		for _, so := range l {
 			if so < 0 || so >= len(bm.Shared_objects) {
 				return pbt.Failf("wf:bonds", "processor %d is attached to shared object %d, there are %d", p, so, len(bm.Shared_objects))
@@ -423,23 +432,18 @@ func wf(bm *bondmachine.Bondmachine, ex Expect) *pbt.Failure {
 	return nil
 }
 
-// boundaryKinds classifies v against the powers of two: "2^k-1", "2^k", "2^k+1" (k >= 1), "" otherwise.
+func isPow2(v int) bool { return v > 0 && v&(v-1) == 0 }
+
+// boundaryKind classifies an index or a length v against the powers of two: "2^k-1" (1, 3, 7, …), "2^k" (2, 4, 8, …),
+// "2^k+1" (5, 9, 17, …), "" otherwise.
 func boundaryKind(v int) string {
-	for k := 1; k <= 10; k++ {
-		switch v {
-		case (1 << uint(k)) - 1:
-			if v == 1 {
-				continue
-			}
-			return "2^k-1"
-		case 1 << uint(k):
-			return "2^k"
-		case (1 << uint(k)) + 1:
-			if k == 1 {
-				return "2^k-1" // 3 = 2^2-1
-			}
-			return "2^k+1"
-		}
+	switch {
+	case v >= 1 && isPow2(v+1):
+		return "2^k-1"
+	case v >= 2 && isPow2(v):
+		return "2^k"
+	case v >= 5 && isPow2(v-1):
+		return "2^k+1"
 	}
 	return ""
 }
